@@ -59,7 +59,33 @@ func scenC07(k *K) {
 		if k.C.Chance(1, 6) {
 			// concurrent local writers (put, batch put, delete on a small key set); the client
 			// of one of them may give up mid-write
+			// 0-2 readers ask for every document (partial match on the empty key, or a query
+			// that accepts all) while the writers are at work: the answer is the documents of
+			// some moment in between, never an error
+			dsr := c.Stores[node].(iface.DocumentStore)
+			var readers []*Op
+			for r, m := 0, k.C.Range(0, 2); r < m; r++ {
+				viaQuery := k.C.Chance(1, 2)
+				readers = append(readers, k.Go(node, "read-all-during-burst", func() (interface{}, error) {
+					if viaQuery {
+						return dsr.Query(context.Background(), func(interface{}) (bool, error) { return true, nil })
+					}
+					return dsr.Get(context.Background(), "", &iface.DocumentStoreGetOptions{PartialMatches: true})
+				}))
+			}
 			c.WriteBurst(node, k.C.Range(2, 3), k.C.Chance(1, 2))
+			for _, r := range readers {
+				for j := 0; j < 50 && !k.IsDone(r); j++ {
+					k.Step()
+				}
+				if !k.IsDone(r) {
+					k.Failf("C07/read-hang", "a Get/Query for all documents started during concurrent writes did not return")
+				}
+				if r.Err != nil {
+					k.Failf("C07/read-error", "a Get/Query for all documents that ran while local writers (put, batch put, delete) were at work failed: %v", r.Err)
+				}
+				k.W.Stat("read-all-concurrent-with-writes")
+			}
 			k.Steps(k.C.Intn(6))
 			checkState("after-burst")
 			continue
